@@ -96,6 +96,9 @@ def _worker_init2(check_name, tier):
     mod = importlib.import_module(f"checks.{check_name}")
     _W["mod"] = mod
     _W["tier"] = tier
+    from . import xcheck
+
+    xcheck.configure(tier)
     if getattr(mod, "NEEDS_PACKAGE", True):
         from . import loader
 
@@ -114,6 +117,12 @@ def _worker_run(case):
         mod.run_case(case, _W["pkg"], _W["tier"], res)
     except BaseException as e:  # includes symx.Unsupported
         res.error = f"{type(e).__name__}: {e}\n" + traceback.format_exc(limit=12)
+    try:
+        from . import xcheck
+
+        res.extra["second_solver"] = xcheck.flush()
+    except BaseException as e:
+        res.extra["second_solver"] = {"error": f"{type(e).__name__}: {e}"}
     res.wall = time.time() - t0
     out = {
         "name": res.name,
@@ -240,7 +249,11 @@ def run_check(check_name, tier="quick", jobs=None, only=None):
     samples = []
     incomplete = []
     per_case = []
+    from . import xcheck
+
+    second = {}
     for r in results:
+        xcheck.merge(second, (r.get("extra") or {}).get("second_solver"))
         if r["error"]:
             errors.append((r["name"], r["error"]))
         if r["stats"]:
@@ -340,6 +353,13 @@ def run_check(check_name, tier="quick", jobs=None, only=None):
             "known_findings_hit": sorted(known_hits),
             "not_reproduced": len(harness_errors),
             "missing_required_labels": missing,
+            "second_solver": {
+                "what": "a sample of the assertion queries (the first few per obligation label and case) re-discharged as SMT-LIB2 by "
+                        "independent solver binaries; agree = same sat/unsat verdict as the in-process z3",
+                "queries_cross_checked": second.get("queries", 0),
+                "per_solver": second.get("solvers", {}),
+                "disagreements": second.get("disagreements", []),
+            },
             "source_sha256_16": _hash_sources(),
             "jobs": jobs,
         },
@@ -372,6 +392,12 @@ def run_check(check_name, tier="quick", jobs=None, only=None):
         code = EXIT_HARNESS
     if total.inconclusive:
         print(f"NOTE: {total.inconclusive} obligations inconclusive (solver unknown)")
+    ndis = sum(st.get("disagree", 0) for st in second.get("solvers", {}).values())
+    print(f"second solver: {second.get('queries', 0)} assertion queries re-discharged; " + "; ".join(
+        f"{n}: agree={st.get('agree', 0)} disagree={st.get('disagree', 0)} unknown={st.get('unknown', 0)} error={st.get('error', 0)}"
+        for n, st in sorted(second.get("solvers", {}).items())))
+    if ndis:
+        print(f"NOTE: {ndis} second-solver disagreements: those obligations are inconclusive (see evidence second_solver.disagreements)")
     if incomplete:
         print(f"NOTE: exploration incomplete (cap reached) in: {incomplete[:8]}")
     for entry in violations:
